@@ -6,7 +6,33 @@ ENGINES = {
     "core": dict(dir="unit/core", pkg="lambda/core"),
 }
 
+ENGINE_TEXT = {
+    "stack": "full-stack engine: one host subprocess per generated scenario runs the real front-end handler, interop server, orchestrator and "
+             "Runtime API server with a fake process supervisor (goroutine actors interpreting generated scripts), a recording EventsAPI and "
+             "the vhook pause points; the parent (rapid) generates scenarios and judges the sequence-numbered trace",
+    "core": "in-process rapid properties overlaid into lambda/core (external test package)",
+}
+
+NOT_APPLICABLE = {}
+
 PROPS = {
+    "C01": dict(
+        engine="stack", test="TestC01", level="exploration",
+        quick=dict(checks=240, shards=12, timeout=900),
+        thorough=dict(checks=4000, shards=14, timeout=3000),
+        rule="rapid draws 1-6 invocations on one emulator instance (fresh host subprocess per case): payload length from "
+             "{0,1,2,255,4095..4097,64Ki,1Mi,limit-1..limit+1,limit+4Ki} or random, content zero/ascii/json/random/non-UTF-8; client "
+             "context absent/JSON/UTF-8 text; trace header; runtime outcome per invocation ok/error/re-poll/crash/stall/oversize response; "
+             "0-1 extension. Oracle over the recorded history: bytes, id freshness, ARN, client context, deadline bracket at the runtime; "
+             "exact expected body/status at the caller. Non-trivial: >=2 different payload lengths on one host, or an empty / non-UTF-8 / "
+             ">=1MiB payload, or an invocation following a failed, timed-out or oversized one. Distinct = distinct case hash.",
+        assumptions=["fake process supervisor (DESIGN 3.4)", "client contexts restricted to strings an HTTP header can carry"],
+        level_text="random search over invocation sequences against the real composed stack (front end -> interop server -> orchestrator -> "
+                   "Runtime API -> scripted runtime and back) with an exact byte/identity oracle on the recorded history. Exploration: no "
+                   "counterexample among the generated histories; sizes up to the limit + 4 KiB.",
+        level_note="processes are goroutines behind a fake supervisor; Cognito identity and content-type headers are not reachable through the emulator front end",
+        technique="property-based testing (rapid): generated invocation histories, history invariant with byte equality",
+    ),
     "C11": dict(
         engine="core", test="TestC11", level="exploration",
         quick=dict(checks=4000, shards=8, timeout=600),
@@ -17,5 +43,12 @@ PROPS = {
              "returned waiters and their results must equal the model's. Non-trivial: >=2 waiters parked at a release or cancel, or "
              "a count change while a waiter is parked, or cancel -> re-arm -> clear. Distinct = distinct case hash.",
         assumptions=["a waiter the model releases returns within 5 s (observed: microseconds)", "Go scheduler, sync.Cond"],
+        level_text="model-based random search: generated operation sequences on a gate and on the init/invoke flow objects are compared step by "
+                   "step with an abstract counting latch (return values, which waiters returned, with what); concurrent batches, and a -race "
+                   "build in the thorough tier. Exploration only.",
+        level_note="operations are issued sequentially with quiescence in between (5 s lost-wake-up window); interleavings inside one primitive "
+                   "operation are only exercised by the concurrent batches; Clear is followed by an explicit SetCount because the expected "
+                   "count after Clear is not part of the property",
+        technique="property-based testing (rapid), stateful model-based: abstract latch as reference model",
     ),
 }
